@@ -14,7 +14,7 @@
    (with the space in front of it) contains no fragment: [no_ssh_frag kid]. *)
 From Coq Require Import Ascii String List Bool Arith ZArith NArith Lia.
 Import ListNotations.
-From AM Require Import Lib.Bytes Lib.Regex Proofs.RegexLemmas Gen.SshdRegexes Gen.SshdDispatch
+From AM Require Import Lib.Bytes Lib.Utf8 Lib.Regex Proofs.RegexLemmas Gen.SshdRegexes Gen.SshdDispatch
   Model.SshdProc Proofs.SshdFields Proofs.SshdForms Proofs.SshdFields2 Proofs.SshdForms2 Proofs.SshdLogin.
 Open Scope string_scope.
 Open Scope list_scope.
@@ -36,7 +36,7 @@ Lemma m_suffix pre post : forall p t ops cs res,
 Proof.
   induction pre as [|it pre IH]; intros p t ops cs res H.
   - exists 0, p, ops, cs. exact H.
-  - cbn [app] in H. destruct it as [x|k|k|g|g| |]; cbn [m] in H.
+  - cbn [app] in H. destruct it as [x|k|k|g|g| | |k]; cbn [m] in H.
     + destruct t as [|y t]; [discriminate|]. destruct (Ascii.eqb y x); [|discriminate].
       destruct (IH _ _ _ _ _ H) as (j & p' & o' & c' & Hj). exists (S j), p', o', c'. exact Hj.
     + destruct t as [|y t]; [discriminate|]. destruct (in_cls k y); [|discriminate].
@@ -48,6 +48,9 @@ Proof.
     + destruct (lookup_g g ops); [|discriminate]. exact (IH _ _ _ _ _ H).
     + destruct (Nat.eqb p 0); [|discriminate]. exact (IH _ _ _ _ _ H).
     + destruct t; [|discriminate]. exact (IH _ _ _ _ _ H).
+    + destruct t as [|y t]; [discriminate|]. destruct (in_cls k y); [|discriminate].
+      destruct (IH _ _ _ _ _ H) as (j & p' & o' & c' & Hj). exists (snd (decode_rune (y :: t)) + j), p', o', c'.
+      rewrite <- skipn_skipn'. exact Hj.
 Qed.
 
 Lemma run_len_firstn k : forall s j, j <= run_len k s -> forallb (in_cls k) (firstn j s) = true.
